@@ -124,7 +124,7 @@ class InttypeStream(runner.Stream):
     def oracle(self, req, ans):
         a, b, ext = parse_req(req)
         dom = domain(a, b)
-        if ans in ("panic", "abort"):
+        if ans in ("panic", "abort", "hang"):
             return "the front end / code generator panicked"
         if dom == "beyond-i64":
             # a bound that is no i64: no type is generated at all (the property speaks about the
